@@ -5,7 +5,9 @@
 form (next, push on a Signal; value on a Variable; each as property store and as augmented assignment) and every kind of source
 (Null, Full, list literal, tuple literal, another array object) the design is compiled with the real compiler and the statements
 of the emitted process are EVALUATED (whole-array aggregates, whole-array copies, element assignments, in program order): after
-the activation every element of the target holds the assigned value (0 / 15 / the literal / the element of the source array).
+the activation every element of the target holds the assigned value (0 / 15 / the literal / the element of the source array);
+a variable is assigned with `:=`, a signal with `<=`, and the process of a PUSHED signal starts with the signal's default (C03:
+"its default in every step in which it is not pushed").
 """
 
 from __future__ import annotations
@@ -55,17 +57,28 @@ class E(Entity):
 LIT = re.compile(r"unsigned'\(\"([01]{4})\"\)")
 
 
-def evaluate(vhdl):
+def evaluate(vhdl, variable, pushed):
     """the elements of tgt after one activation of proc, from the statements of the process in program order"""
     start = vhdl.index("proc: process")
     body = vhdl[start:vhdl.index("end process", start)]
     body = body[body.index("begin"):]
     state = {"tgt": list(INIT), "other": list(OTHER)}
+    first = True
     for line in body.splitlines():
         m = re.match(r"\s*tgt(?:\((\d+)\))?\s*(<=|:=)\s*(.*);\s*$", line)
         if not m:
             continue
         idx, rhs = m.group(1), m.group(3).strip()
+        if m.group(2) != (":=" if variable else "<="):
+            return None, f"{'variable' if variable else 'signal'} assigned with {m.group(2)}"
+        if first and pushed:
+            # a pushed signal carries its default in every step in which it is not pushed: the process starts with the default
+            first = False
+            elems = dict((int(i), int(b, 2)) for i, b in re.findall(r"(\d+)\s*=>\s*unsigned'\(\"([01]{4})\"\)", rhs))
+            if idx is not None or [elems.get(i) for i in range(3)] != INIT:
+                return None, f"the process does not start with the default of the pushed signal (first assignment: {line.strip()!r})"
+            continue
+        first = False
         if idx is not None:
             lit = LIT.fullmatch(rhs)
             if not lit:
@@ -90,7 +103,7 @@ for (form, (qual, stmt)), (sname, (src, want)) in itertools.product(FORMS.items(
     except Exception as e:
         rejected.append(f"{form}<-{sname}: {type(e).__name__}")
         continue  # rejected at compile time: nothing is assigned wrongly
-    got, problem = evaluate(vhdl)
+    got, problem = evaluate(vhdl, qual == "Variable", form.startswith("push"))
     if problem is not None:
         bad.append([f"{form}<-{sname}", problem])
     elif got != want:
